@@ -436,7 +436,48 @@ def core_skips(repo, res):
     res.floor("SKIPS", n, 5)
 
 
+def prec_rule(repo, res, rule="PREC"):
+    """`a || b || c` is ONE fallback group with levels 0, 1, 2 (and `a | b | c` one alternative, `a b c` one sequence): the parser
+    function that builds an n-ary node collects its operands in a loop and parses each operand one level further down.  Structurally:
+    no function that builds a Fallback / Alternative / Sequence node can reach itself through the expression parsers without passing
+    a bracketed construct (`( .. )`, `[ .. ]`), which starts again from the top.  An operand parsed by the function itself (`a || <the
+    whole rest>`) nests the groups instead, and the levels of `b` and `c` start again from 0."""
+    fns = {f.name: f for f in repo.fns_in("parse") if "ExprId" in "".join((f.node.get("ret") or "").split()) and any("Vec<Expr>" in "".join((p_.get("ty") or "").split()) for p_ in f.params) and any("Span<" in "".join((p_.get("ty") or "").split()) for p_ in f.params)}
+    if len(fns) < 5:
+        res.undecided(rule, f"{rule}:parse", f"only {len(fns)} expression parsers found")
+        return
+    calls = {}
+    for name, f in fns.items():
+        fenvs = A.collect_envs(f)
+        is_local = lambda x: (fenvs.get(id(x)) is not None and fenvs.get(id(x)).get(x["path"]) is not None)
+        calls[name] = {x["func"]["path"].split("::")[-1] for x in A.walk(f.body) if x["k"] == "Call" and x["func"]["k"] == "Path" and x["func"]["path"].split("::")[-1] in fns and x["func"]["path"].split("::")[-1] != name and not is_local(x["func"])} \
+            | {x["path"].split("::")[-1] for x in A.walk(f.body) if x["k"] == "Path" and x["path"].split("::")[-1] in fns and x["path"].split("::")[-1] != name and not is_local(x)}
+        if any(x["k"] == "Call" and x["func"]["k"] == "Path" and x["func"]["path"].split("::")[-1] == name for x in A.walk(f.body)):
+            calls[name].add(name)
+    bracketed = {name for name, f in fns.items() if any(x["k"] == "Call" and x["func"]["k"] == "Path" and x["func"]["path"].split("::")[-1] == "char" and x["args"] and x["args"][0].get("k") == "Lit" and str(x["args"][0].get("v")) in "([{" and str(x["args"][0].get("v")) for x in A.walk(f.body))}
+    builders = {}
+    for name, f in fns.items():
+        vs = [v for v in ("Fallback", "Alternative", "Sequence") if list(P.ctor_sites(f.body, "Expr::" + v))]
+        if vs and any(x["k"] in ("While", "ForLoop", "Loop") for x in A.walk(f.body)):
+            builders[name] = vs
+    res.check(len(builders) >= 3 and bool(bracketed), rule, f"{rule}:parse:found", f"n-ary node builders {sorted(builders)}; bracketed constructs parsed by {sorted(bracketed)}", "src/parse.rs")
+    for name, vs in sorted(builders.items()):
+        seen, todo = set(), list(calls[name])
+        while todo:
+            g = todo.pop()
+            if g in seen:
+                continue
+            seen.add(g)
+            if g in bracketed:
+                continue
+            todo.extend(calls.get(g, ()))
+        ok = name not in seen
+        res.check(ok, rule, f"{rule}:parse::{name}", f"builds {vs}: operands are parsed by {sorted(calls[name])}, none of which comes back here except through brackets" if ok else
+                  f"builds {vs} and is reachable from its own operand parsers {sorted(calls[name])} without a bracket in between: `a OP b OP c` nests as `a OP (b OP c)` instead of one group", fns[name].loc())
+
+
 def run(repo, res, tier):
+    prec_rule(repo, res)
     from vlib import rules_fieldcover as FC
     FC.fieldcover(repo, res, "dfa::Inp::get_fallback_level", "Inp", "fallback_level", "value")  # the `||` index of every kind of item is visible to the table builders
     levelfield(repo, res)
